@@ -536,7 +536,24 @@ func c03PersistCases(t *testing.T, out *vfOut, rnd *vfRand) {
 					classes = append(classes, "persist-restart-after-set")
 				}
 				sinceRestart = 0
-				// the same requests to the server that went down and the one that came up
+				// the lists in force after the restart, as access/list reports
+				// them: the client lists accepted last; the blocked hosts
+				// accepted last, or the three default names if that list is
+				// empty (initDefaultSettings, upstream's default rule)
+				{
+					want := inForce(len(last.Hosts) == 0)
+					got := list(next)
+					if len(last.Hosts) == 0 {
+						classes = append(classes, "persist-restart-empty-hosts-defaults-listed")
+					}
+					if !c03SameStrs(got.AllowedClients, want.Allowed) || !c03SameStrs(got.DisallowedClients, want.Blocked) ||
+						!c03SameStrs(got.BlockedHosts, want.hostTexts()) {
+						fail(i, "after the restart access/list shows allowed=%q disallowed=%q blocked_hosts=%q; the settings accepted last are allowed=%q disallowed=%q blocked_hosts=%q (an empty blocked-hosts list starts as %q)",
+							got.AllowedClients, got.DisallowedClients, got.BlockedHosts, last.Allowed, last.Blocked, last.hostTexts(), c03DefaultHostNames)
+					}
+				}
+				// the same requests to the server that went down and the one that came up;
+				// the verdict after the restart is judged by the lists then in force
 				rp := rnd.Fork(uint64(i))
 				var probes []any
 				for k := 0; k < 8; k++ {
@@ -556,13 +573,15 @@ func c03PersistCases(t *testing.T, out *vfOut, rnd *vfRand) {
 					}
 					switch {
 					case must != "" && after != must:
-						failServed(i, "after the restart the request gets %q; under the settings accepted last (allowed=%q disallowed=%q blocked_hosts=%q) the access rules require %q (before the restart: %q); request %v",
-							after, last.Allowed, last.Blocked, last.hostTexts(), must, before, x.desc())
+						failServed(i, "after the restart the request gets %q; under the settings accepted last (allowed=%q disallowed=%q blocked_hosts=%q%s) the access rules require %q (before the restart: %q); request %v",
+							after, last.Allowed, last.Blocked, last.hostTexts(), map[bool]string{true: " = the default names after a start", false: ""}[len(last.Hosts) == 0], must, before, x.desc())
 					case defaultsInForce != (len(last.Hosts) == 0) && slices.Contains(c03DefaultHostNames, qname):
 						// The accepted blocked-hosts list is empty: the server
 						// that comes up blocks the three default names, the one
-						// that went down did not (reported to the lead; stated
-						// as C03_restart_empty_hosts_gets_defaults).
+						// that went down did not (the start-up default rule,
+						// C03_restart_empty_blocked_hosts_defaults; the verdict
+						// after the restart was judged above by the lists then
+						// in force).
 						classes = append(classes, "persist-restart-empty-hosts-default-name")
 					case before != after:
 						fail(i, "the request gets %q before the restart and %q after it (settings accepted last: allowed=%q disallowed=%q blocked_hosts=%q); request %v",
